@@ -254,6 +254,13 @@ func doNewRawSuite(scn, name string, inlist bool) Event {
 	invoke(&e, func() result {
 		y := map[string]any{"cfg": zero, "str": B{}, "known": otp.IsKnownSuite(name), "inlist": inlist, "fromraws": cfgOf(otp.SuiteConfigFromRaws(name)),
 			"mustok": false, "mustcfg": zero}
+		if !inlist { // callers that do not know: ask the list itself
+			for _, n := range otp.ListSuites() {
+				if n == name {
+					y["inlist"] = true
+				}
+			}
+		}
 		s, err := otp.NewRawSuite(name)
 		if err == nil && s != nil {
 			y["cfg"] = cfgOf(s.Config())
